@@ -5,6 +5,8 @@ import sys
 import time
 
 VERIF = os.path.dirname(os.path.dirname(os.path.abspath(__file__)))
+import re as _re
+_LAMBDA_AT = _re.compile(r'\(lambda at [^)]*\)')
 
 
 class Report:
@@ -28,6 +30,8 @@ class Report:
 
     def ob(self, clause, rule, instance, ok, site='', detail='', func=''):
         """One obligation.  `instance` identifies it stably (qualified names, no line numbers)."""
+        instance = _LAMBDA_AT.sub('(lambda)', instance)          # no paths / line numbers in the stable identity
+        func = _LAMBDA_AT.sub('(lambda)', func or '')
         self.obs.append({'clause': clause, 'rule': rule, 'instance': self.prefix + instance, 'site': site,
                          'function': func, 'verdict': 'discharged' if ok else 'FAILED',
                          'detail': detail})
